@@ -8,6 +8,9 @@ import os
 import sys
 import time
 import types
+import warnings
+from collections import Counter, OrderedDict
+from collections.abc import Mapping
 
 sys.path.insert(0, os.path.dirname(os.path.dirname(os.path.abspath(__file__))))
 
@@ -29,7 +32,11 @@ TRUSTED = [
     "wire-label-independent local matrices is validated per instance against oracle/dense.py",
     "qiskit utils.py is executed from the working tree with the package __init__ bypassed and a stand-in "
     "qiskit.providers.backend.BackendV1 class (the installed qiskit 2.x no longer ships it)",
-    "braket back end is driven with a stub Device/QuantumTask returning real GateModelQuantumTaskResult objects",
+    "braket back end is driven with a stub Device/QuantumTask returning real GateModelQuantumTaskResult objects; the "
+    "AwsDevice branch with a session-less AwsDevice subclass whose `properties` carries service.shotsRange and "
+    "supportedOperations (the two things sampling.py / transpiler.py read)",
+    "QiskitSamplingBackend (sampling.py of the qiskit package, the in-tree caller of utils.py) runs on the installed "
+    "qiskit BasicSimulator (subclassed only to record the shots of each run and to advertise max_shots)",
 ]
 
 ONE_Q = ["H", "X", "Y", "Z", "S", "Sdag", "T", "SqrtX", "Identity"]
@@ -147,19 +154,53 @@ def strip_detail(model_line: str) -> str:
 # ---------------------------------------------------------------------------
 # generators
 # ---------------------------------------------------------------------------
+BOUNDARY = [30, 31, 32, 33, 62, 63, 64, 65, 127, 128]
+KINDS = ["inj", "inj-wide", "dup", "partial", "empty", "huge", "identity", "identity-sparse", "perm", "shift", "boundary"]
+KIND_W = [34, 14, 10, 10, 2, 5, 5, 5, 6, 3, 6]
+VALID_KINDS = ["inj", "inj", "inj-wide", "huge", "identity", "identity-sparse", "perm", "shift", "boundary"]
+
+
 def rand_mapping(rng, n_keys_hint=None, kind=None):
     """returns (items in insertion order, kind)"""
-    kind = kind or rng.choices(["inj", "inj-wide", "dup", "partial", "empty", "huge"], [50, 20, 10, 12, 2, 6])[0]
+    kind = kind or rng.choices(KINDS, KIND_W)[0]
     n = n_keys_hint if n_keys_hint is not None else rng.randint(1, 6)
     if kind == "empty":
         return [], kind
+    if kind in ("identity", "identity-sparse", "perm", "shift", "boundary"):
+        # the "trivial" shapes a fast path would key on: k -> k on a full or a sparse key set (stray bits on the
+        # other backend qubits must still be projected out), permutations of 0..n-1, constant shifts, and labels
+        # around the 32 / 64 / 128-bit boundaries on either side
+        if kind == "identity":
+            keys = list(range(n))
+            vals = list(keys)
+        elif kind == "identity-sparse":
+            keys = sorted(rng.sample(range(n + 5), n))
+            vals = list(keys)
+        elif kind == "perm":
+            keys = list(range(n))
+            vals = list(keys)
+            rng.shuffle(vals)
+        elif kind == "shift":
+            keys = list(range(n))
+            c = rng.choice([1, 2, 3, 31, 32, 63, 64])
+            vals = [k + c for k in keys]
+        else:
+            keys = list(range(n)) if rng.random() < 0.6 else rng.sample(BOUNDARY[:8] + list(range(4)), min(n, 8))
+            vals = rng.sample(BOUNDARY + list(range(3)), len(keys))
+            edge = [b for b in (31, 32, 63, 64) if b not in vals[1:]]
+            if edge and rng.random() < 0.5:  # at least one label sitting exactly on a boundary
+                vals[0] = rng.choice(edge)
+        items = list(zip(keys, vals))
+        if rng.random() < 0.6:
+            rng.shuffle(items)
+        return items, kind
     keys = list(range(n))
     if rng.random() < 0.3:  # sparse logical labels / extra unused keys
         keys = rng.sample(range(n + 4), n)
     if kind == "partial" and len(keys) > 1:
         keys = keys[:-1] if rng.random() < 0.5 else keys[1:]
     width = {"inj": n + rng.randint(0, 3), "inj-wide": n + rng.randint(4, 12), "dup": max(1, n + rng.randint(-1, 2)),
-             "partial": n + rng.randint(0, 3), "huge": rng.choice([40, 70, 130])}[kind]
+             "partial": n + rng.randint(0, 3), "huge": rng.choice([33, 40, 65, 70, 130])}[kind]
     if kind == "dup":
         vals = [rng.randrange(width) for _ in keys]
         if len(keys) > 1 and len(set(vals)) == len(vals):
@@ -168,6 +209,61 @@ def rand_mapping(rng, n_keys_hint=None, kind=None):
         vals = rng.sample(range(max(width, len(keys))), len(keys))
     rng.shuffle(keys)
     return list(zip(keys, vals)), kind
+
+
+# argument forms ------------------------------------------------------------
+class ROMapping(Mapping):
+    """a Mapping that is not a dict (the signatures say Mapping[int, int])"""
+
+    def __init__(self, items):
+        self._d = dict(items)
+
+    def __getitem__(self, k):
+        return self._d[k]
+
+    def __iter__(self):
+        return iter(self._d)
+
+    def __len__(self):
+        return len(self._d)
+
+    def __repr__(self):
+        return f"ROMapping({self._d!r})"
+
+
+MAPPING_FORMS = ["dict", "dict", "proxy", "ordered", "custom"]
+
+
+def mapping_form(items, form):
+    if form == "proxy":
+        return types.MappingProxyType(dict(items))
+    if form == "ordered":
+        return OrderedDict(items)
+    if form == "custom":
+        return ROMapping(items)
+    return dict(items)
+
+
+CIRCUIT_FORMS = ["mutable", "mutable", "frozen", "ctor-gates", "immutable-copy"]
+
+
+def circuit_form(circ, form):
+    """the same circuit as the other object kinds a caller may hold (degrades to the mutable circuit when the
+    constructor form is not available)"""
+    try:
+        if form == "frozen":
+            return circ.freeze()
+        if form == "ctor-gates":
+            from quri_parts.circuit import QuantumCircuit
+
+            return QuantumCircuit(circ.qubit_count, circ.cbit_count, list(circ.gates))
+        if form == "immutable-copy":
+            from quri_parts.circuit import ImmutableQuantumCircuit
+
+            return ImmutableQuantumCircuit(circ)
+    except Exception:  # noqa: BLE001
+        return circ
+    return circ
 
 
 def rand_gate(rng, qubits, allow_meas, cbits):
@@ -232,12 +328,12 @@ def rand_counts(rng, width, n_entries):
 # ---------------------------------------------------------------------------
 # real evaluation (exceptions are outputs)
 # ---------------------------------------------------------------------------
-def real_remap(items, n, cb, gates, via="direct"):
+def real_remap(items, n, cb, gates, via="direct", mform="dict", cform="mutable"):
     """-> canonical response string (same grammar as the driver, without error detail)"""
     from quri_parts.circuit.transpile import QubitRemappingTranspiler
 
-    circ = real_circuit(n, cb, gates)
-    m = dict(items)
+    circ = circuit_form(real_circuit(n, cb, gates), cform)
+    m = mapping_form(items, mform)
     try:
         if via == "direct":
             tr = QubitRemappingTranspiler(m)
@@ -245,6 +341,10 @@ def real_remap(items, n, cb, gates, via="direct"):
             from quri_parts.backend.qubit_mapping import BackendQubitMapping
 
             tr = BackendQubitMapping(m).circuit_transpiler
+        elif via == "sequential":
+            from quri_parts.circuit.transpile import SequentialTranspiler
+
+            tr = SequentialTranspiler([SequentialTranspiler([]), QubitRemappingTranspiler(m)])
         else:  # qiskit helper
             _, tr = qiskit_utils().get_job_mapper_and_circuit_transpiler(m, marker_transpiler())
     except Exception as e:  # noqa: BLE001
@@ -253,14 +353,36 @@ def real_remap(items, n, cb, gates, via="direct"):
         out = tr(circ)
     except Exception as e:  # noqa: BLE001
         return f"err call {type(e).__name__}", None
-    return f"ok {out.qubit_count} {out.cbit_count} | " + ";".join(enc_real_gate(g) for g in out.gates), out
+    return enc_real_circuit(out), out
 
 
-def real_unmap(items, counts_items, via):
+def enc_real_circuit(out) -> str:
+    return f"ok {out.qubit_count} {out.cbit_count} | " + ";".join(enc_real_gate(g) for g in out.gates)
+
+
+QUARTER = 0.25  # float counts are multiples of 1/4 below 2^22: every partial sum is exact in binary64
+
+
+def counts_form(counts_items, form):
+    """(object handed to the real code, decoder of an output value to the model's integer)"""
+    if form == "counter":
+        return Counter(dict(counts_items)), int
+    if form == "float":
+        def dec(v):
+            w = v * 4
+            if w != int(w):
+                raise ValueError(f"non-dyadic count {v!r}")
+            return int(w)
+
+        return {k: v * QUARTER for k, v in counts_items}, dec
+    return dict(counts_items), int
+
+
+def real_unmap(items, counts_items, via, mform="dict", cform="dict"):
     import quri_parts.backend.qubit_mapping as qm
 
-    m = dict(items)
-    counts = dict(counts_items)
+    m = mapping_form(items, mform)
+    counts, dec = counts_form(counts_items, cform)
     try:
         rm = list(qm._create_reverse_map(m).items())
         if via == "function":
@@ -276,9 +398,9 @@ def real_unmap(items, counts_items, via):
             out = qm.QubitMappedSamplingResult(r, qm.BackendQubitMapping(m)).counts
         else:
             out = qm.QubitMappedSamplingJob(StubJob(counts), qm.BackendQubitMapping(m)).result().counts
+        return f"rm={enc_map(rm)} | counts={enc_counts([(k, dec(v)) for k, v in out.items()])}"
     except Exception as e:  # noqa: BLE001
         return f"err {type(e).__name__}"
-    return f"rm={enc_map(rm)} | counts={enc_counts(list(out.items()))}"
 
 
 # ---------------------------------------------------------------------------
@@ -319,37 +441,46 @@ def k_remap(ctx: Ctx):
         if c.get("kind") == "remap":
             full = lambda g: {"name": g["name"], "t": g.get("t", []), "c": g.get("c", []), "cl": g.get("cl", []),
                               "params": g.get("params", []), "pauli": g.get("pauli", []), "um": g.get("um", [])}
-            cases.append(([tuple(x) for x in c["mapping"]], c["n"], c["cb"], [full(g) for g in c["gates"]], "corpus", "direct"))
+            cases.append(([tuple(x) for x in c["mapping"]], c["n"], c["cb"], [full(g) for g in c["gates"]], "corpus", "direct",
+                          c.get("mapping_form", "dict"), c.get("circuit_form", "mutable")))
     for _ in range(ctx.n(700, 20000)):
         n = rng.randint(1, 6)
         items, kind = rand_mapping(rng, n)
-        nn, cb, gates = rand_circuit(rng, n, rng.randint(0, 8))
-        if kind in ("inj", "inj-wide", "huge") and rng.random() < 0.15:
+        labels = list(range(n))
+        if items and kind in ("boundary", "identity-sparse") and rng.random() < 0.8:
+            labels = sorted(k for k, _ in items)  # gates on the mapping's own (sparse / large) logical labels
+        cb = rng.randint(1, 3) if rng.random() < 0.12 else 0
+        gates = [rand_gate(rng, labels, cb > 0, cb) for _ in range(rng.randint(0, 8))]
+        nn = max(labels) + 1
+        if kind not in ("dup", "partial", "empty") and rng.random() < 0.15:
             # gates on a qubit outside the domain of a mapping that is otherwise fine
             extra = max([k for k, _ in items] + [n]) + 1
             gates.insert(rng.randint(0, len(gates)), {"name": "H", "t": [extra], "c": [], "cl": [], "params": [], "pauli": [], "um": []})
             nn = max(nn, extra + 1)
         nn = max([nn] + [k + 1 for g in gates for k in g["t"] + g["c"]])
-        via = rng.choices(["direct", "backend-mapping", "qiskit"], [6, 2, 2])[0]
+        via = rng.choices(["direct", "backend-mapping", "qiskit", "sequential"], [5, 2, 2, 1])[0]
         if via == "qiskit" and not items:
             via = "direct"  # `if qubit_mapping:` — the empty mapping never reaches the transpiler there
-        cases.append((items, nn, cb, gates, kind, via))
+        cases.append((items, nn, cb, gates, kind, via, rng.choice(MAPPING_FORMS), rng.choice(CIRCUIT_FORMS)))
     reqs = [f"c18remap {enc_map(it)} | {n} {cb} | " + ";".join(enc_gate_spec(g) for g in gs + ([MARKER] if via == "qiskit" else []))
-            for it, n, cb, gs, _, via in cases]
+            for it, n, cb, gs, _, via, *_ in cases]
     resp = ctx.driver(reqs, entry=ENTRY)
-    for (items, n, cb, gates, kind, via), req, r in zip(cases, reqs, resp):
+    for (items, n, cb, gates, kind, via, mform, cform), req, r in zip(cases, reqs, resp):
         if r == "bad-request":
             raise InfraError(f"driver rejected {req[:200]}")
-        real, _ = real_remap(items, n, cb, gates, via)
+        real, _ = real_remap(items, n, cb, gates, via, mform, cform)
         ctx.traces += 1
         ctx.count("remap.mapping", kind)
         ctx.count("remap.via", via)
+        ctx.count("remap.mapping_form", mform)
+        ctx.count("remap.circuit_form", cform)
         ctx.count("remap.outcome", " ".join(r.split(" ")[:4]) if r.startswith("err") else "ok")
         canon = ("remap", tuple(items), n, cb, tuple(enc_gate_spec(g) for g in gates))
         ctx.case(canon, nontrivial=bool(gates) and bool(items),
                  sample={"kind": "remap", "mapping": items, "circuit": req.split("|", 1)[1][:160], "model": r[:160]})
         if strip_detail(r) != real:
-            ctx.disagree("remap:" + via, {"kind": "remap", "mapping": items, "n": n, "cb": cb, "gates": gates}, real[:400], r[:400])
+            ctx.disagree("remap:" + via, {"kind": "remap", "mapping": items, "n": n, "cb": cb, "gates": gates,
+                                          "mapping_form": mform, "circuit_form": cform}, real[:400], r[:400])
 
 
 def k_unmap(ctx: Ctx):
@@ -357,27 +488,34 @@ def k_unmap(ctx: Ctx):
     cases = []
     for c in corpus_cases():
         if c.get("kind") == "unmap":
-            cases.append(([tuple(x) for x in c["mapping"]], [tuple(x) for x in c["counts"]], "corpus", "mapping"))
+            cases.append(([tuple(x) for x in c["mapping"]], [tuple(x) for x in c["counts"]], "corpus", "mapping",
+                          c.get("mapping_form", "dict"), c.get("counts_form", "dict")))
     for _ in range(ctx.n(900, 30000)):
         items, kind = rand_mapping(rng)
         width = max([v for _, v in items] + [1]) + 1
+        cform = rng.choice(["dict", "dict", "counter", "float"])
         counts = rand_counts(rng, width, rng.randint(0, 12))
-        cases.append((items, counts, kind, rng.choice(["function", "mapping", "result", "job"])))
-    reqs = [f"c18unmap {enc_map(it)} | {enc_counts(cs)}" for it, cs, _, _ in cases]
+        if cform == "float":
+            counts = [(k, rng.choice([0, 1, 2, 3, 5, rng.randrange(1 << 18)])) for k, _ in counts]
+        cases.append((items, counts, kind, rng.choice(["function", "mapping", "result", "job"]), rng.choice(MAPPING_FORMS), cform))
+    reqs = [f"c18unmap {enc_map(it)} | {enc_counts(cs)}" for it, cs, *_ in cases]
     resp = ctx.driver(reqs, entry=ENTRY)
-    for (items, counts, kind, via), r in zip(cases, resp):
+    for (items, counts, kind, via, mform, cform), r in zip(cases, resp):
         if r == "bad-request":
             raise InfraError("driver rejected an unmap request")
-        real = real_unmap(items, counts, via)
+        real = real_unmap(items, counts, via, mform, cform)
         ctx.traces += 1
         ctx.count("unmap.mapping", kind)
         ctx.count("unmap.via", via)
+        ctx.count("unmap.mapping_form", mform)
+        ctx.count("unmap.counts_form", cform)
         merged = len(counts) - (r.split("counts=")[1].count(":") if "counts=" in r else 0)
         ctx.count("unmap.merged_entries", str(min(merged, 5)))
         ctx.case(("unmap", tuple(items), tuple(counts)), nontrivial=bool(items) and bool(counts),
                  sample={"kind": "unmap", "mapping": items, "counts": [(k, str(v)) for k, v in counts[:4]], "model": r[:160]})
         if r != real:
-            ctx.disagree("unmap:" + via, {"kind": "unmap", "mapping": items, "counts": counts}, real[:400], r[:400])
+            ctx.disagree("unmap:" + via, {"kind": "unmap", "mapping": items, "counts": counts, "mapping_form": mform,
+                                          "counts_form": cform}, real[:400], r[:400])
 
 
 def k_bits(ctx: Ctx):
@@ -388,6 +526,10 @@ def k_bits(ctx: Ctx):
     from oracle import c18_remap as orc
 
     rng = ctx.rng
+    if not all(callable(getattr(qm, a, None)) for a in ("_create_reverse_map", "_reverse_map_bits")):
+        # private helpers renamed: a correspondence difference, not a crash (the public paths are judged elsewhere)
+        ctx.disagree("reverse_map_bits", {"kind": "bits"}, "private helper _create_reverse_map / _reverse_map_bits missing", "present")
+        return
     cases = []
     nk, width = (2, 3) if ctx.quick() else (3, 5)
     for n in range(0, nk + 1):  # every mapping (injective or not) with keys 0..n-1 in every order
@@ -472,32 +614,89 @@ def k_qiskit(ctx: Ctx):
 class StubTask:
     def __init__(self, res):
         self._res = res
+        self.cancelled = False
+        self.cancel_raises = False
 
     def result(self):
         return self._res
 
     def cancel(self):
-        pass
+        self.cancelled = True
+        if self.cancel_raises:
+            raise DeviceDown("cancel failed too")  # documented: cancel errors are ignored, the run failure is reported
+
+
+class DeviceDown(RuntimeError):
+    """what a scripted device raises from run() (a network / service failure)"""
+
+
+def _stub_run(self, circ, shots, **kw):
+    """`script[i](used_qubits, shots) -> (measured_qubits, rows)`; a script entry may raise (Device.run failure) or
+    return a ready-made result object instead of the pair"""
+    import numpy as np
+    from braket.tasks import GateModelQuantumTaskResult
+
+    used = sorted(int(q) for q in circ.qubits)
+    self.last_circuit = circ
+    self.run_kwargs.append(dict(kw))
+    got = self.script[len(self.calls)](used, shots)
+    if not isinstance(got, tuple):
+        self.calls.append((used, shots, [], []))
+        t = StubTask(got)
+    else:
+        mq, rows = got
+        self.calls.append((used, shots, mq, rows))
+        t = StubTask(GateModelQuantumTaskResult(task_metadata=None, additional_metadata=None,
+                                                measurements=np.array(rows, dtype=int).reshape(len(rows), len(mq)),
+                                                measured_qubits=list(mq)))
+    t.cancel_raises = bool(getattr(self, "cancel_raises", False))
+    self.tasks.append(t)
+    return t
 
 
 class StubDevice:
-    """stands in for braket.devices.Device: `script[i](used_qubits, shots) -> (measured_qubits, rows)`"""
+    """stands in for braket.devices.Device"""
 
     def __init__(self):
-        self.calls = []
-        self.script = []
+        self.calls, self.script, self.tasks, self.run_kwargs = [], [], [], []
 
-    def run(self, circ, shots, **kw):
-        import numpy as np
-        from braket.tasks import GateModelQuantumTaskResult
+    run = _stub_run
 
-        used = sorted(int(q) for q in circ.qubits)
-        self.last_circuit = circ
-        mq, rows = self.script[len(self.calls)](used, shots)
-        self.calls.append((used, shots, mq, rows))
-        return StubTask(GateModelQuantumTaskResult(task_metadata=None, additional_metadata=None,
-                                                   measurements=np.array(rows, dtype=int).reshape(len(rows), len(mq)),
-                                                   measured_qubits=list(mq)))
+
+_AWS_STUB = None
+
+
+def aws_stub(shots_range, operations):
+    """an AwsDevice (isinstance is what BraketSamplingBackend tests) without a session: `properties` carries the
+    shotsRange the back end reads and the supportedOperations AwsDeviceTranspiler reads"""
+    global _AWS_STUB
+    if _AWS_STUB is None:
+        from braket.aws import AwsDevice
+
+        class _Props:
+            def __init__(self, shots_range, operations):
+                self.service = types.SimpleNamespace(shotsRange=tuple(shots_range))
+                self._ops = list(operations)
+
+            def dict(self):
+                return {"action": {"braket.ir.openqasm.program": {"supportedOperations": list(self._ops)}}}
+
+        class AwsStub(AwsDevice):
+            def __init__(self, shots_range, operations):  # noqa: D401 – no AWS session
+                self.calls, self.script, self.tasks, self.run_kwargs = [], [], [], []
+                self._p = _Props(shots_range, operations)
+
+            @property
+            def properties(self):
+                return self._p
+
+            run = _stub_run
+
+        _AWS_STUB = AwsStub
+    return _AWS_STUB(shots_range, operations)
+
+
+ALL_OPS = ["x", "h", "rx", "cnot", "swap", "ccnot", "cz", "i"]
 
 
 def k_braket(ctx: Ctx):
@@ -511,7 +710,7 @@ def k_braket(ctx: Ctx):
     cases = []
     for _ in range(ctx.n(120, 3000)):
         n = rng.randint(1, 4)
-        items, kind = rand_mapping(rng, n, kind=rng.choice(["inj", "inj-wide", "inj", "huge"]))
+        items, kind = rand_mapping(rng, n, kind=rng.choice(["inj", "inj-wide", "inj", "huge", "identity", "perm", "shift", "boundary"]))
         if {k for k, _ in items} != set(range(n)):
             items = list(zip(range(n), [v for _, v in items]))
             rng.shuffle(items)
@@ -532,7 +731,9 @@ def k_braket(ctx: Ctx):
         cases.append((items, n, gates, shots, max_shots, kind))
     reqs, meta = [], []
     for items, n, gates, shots, max_shots, kind in cases:
-        dev = Dev()
+        # several device tasks: an AwsDevice whose shotsRange the back end reads at construction (never a private
+        # attribute of the back end)
+        dev = Dev() if max_shots is None else aws_stub((rng.choice([0, 1]), max_shots), ALL_OPS)
         m = dict(items)
         width = max(m.values()) + 1
 
@@ -554,10 +755,8 @@ def k_braket(ctx: Ctx):
 
         dev.script = [script] * 64
         try:
-            be = BraketSamplingBackend(dev, circuit_transpiler=marker_transpiler(), qubit_mapping=m)
-            if max_shots is not None:
-                be._max_shots = max_shots  # what an AwsDevice's shotsRange would set; forces CompositeSamplingJob
-            job = be.sample(real_circuit(n, 0, gates), shots)
+            be = BraketSamplingBackend(dev, circuit_transpiler=marker_transpiler(), qubit_mapping=mapping_form(items, rng.choice(MAPPING_FORMS)))
+            job = be.sample(circuit_form(real_circuit(n, 0, gates), rng.choice(CIRCUIT_FORMS)), shots)
             real = sorted(job.result().counts.items())
         except Exception as e:  # noqa: BLE001
             real = f"err {type(e).__name__}"
@@ -640,7 +839,7 @@ def oracle_search(ctx: Ctx, budget_s: float):
             m = dict(items)
             used = {q for g in gates for q in g["t"] + g["c"]}
             want = orc.should_accept(m, used)
-            real, out_r = real_remap(items, nn, cb, gates)
+            real, out_r = real_remap(items, nn, cb, gates, rng.choice(["direct", "backend-mapping", "sequential"]), rng.choice(MAPPING_FORMS), rng.choice(CIRCUIT_FORMS))
             n_eval += 1
             if out_r is not None and (out_r.cbit_count != cb or [tuple(g.classical_indices) for g in out_r.gates] != [tuple(g["cl"]) for g in gates]):
                 ctx.witness("remap-classical-register", "the remapped circuit does not keep the classical register / classical indices",
@@ -652,7 +851,7 @@ def oracle_search(ctx: Ctx, budget_s: float):
             elif not want and "ValueError" not in real:
                 ctx.witness("remap-rejection-class", f"rejected with {real} instead of ValueError", describe(items, nn, cb, gates))
             continue
-        items, kind = rand_mapping(rng, n, kind=rng.choice(["inj", "inj-wide", "inj", "huge" if mode != "dense" else "inj"]))
+        items, kind = rand_mapping(rng, n, kind=rng.choice(VALID_KINDS if mode != "dense" else ["inj", "inj", "identity", "identity-sparse", "perm", "shift"]))
         m = dict(items)
         keys = sorted(m)
         if mode == "counts":
@@ -669,11 +868,24 @@ def oracle_search(ctx: Ctx, budget_s: float):
                 cnt = rng.randint(1, 1000)
                 backend[y] = cnt
                 logical[x] = logical.get(x, 0) + cnt
-            got = dict(qm.BackendQubitMapping(m).unmap_sampling_counts(backend))
+            vform = rng.choice(["int", "int", "counter", "float"])
+            if vform == "float":  # multiples of 1/4: every sum below is exact in binary64
+                backend = {y: c * QUARTER for y, c in backend.items()}
+                logical = {}
+                for y, c in backend.items():
+                    x = orc.logical_outcome(m, y)
+                    logical[x] = logical.get(x, 0) + c
+            arg = Counter(backend) if vform == "counter" else dict(backend)
+            try:
+                got = dict(qm.BackendQubitMapping(mapping_form(items, rng.choice(MAPPING_FORMS))).unmap_sampling_counts(arg))
+            except Exception as e:  # noqa: BLE001
+                got = {"raised": type(e).__name__}
             n_eval += 1
+            ctx.count("oracle.counts", vform)
             if got != logical or sum(got.values()) != sum(backend.values()):
                 ctx.witness("unmap-counts", "un-mapped counts differ from the logical distribution",
-                            {"mapping": items, "backend_counts": sorted(backend.items())}, {"got": sorted(got.items()), "want": sorted(logical.items())})
+                            {"mapping": items, "backend_counts": sorted(backend.items()), "counts_given_as": vform},
+                            {"got": sorted(got.items(), key=str), "want": sorted(logical.items())})
             continue
         if mode == "braket-backend":
             # the whole back end, end to end: a classical reversible circuit goes through the user transpiler, the
@@ -781,7 +993,7 @@ def oracle_search(ctx: Ctx, budget_s: float):
                 gates.append(g)
         nn = max(keys) + 1
         via = "qiskit" if (mode == "classical" and 0 in m and rng.random() < 0.3) else "direct"
-        real, out = real_remap(items, nn, 0, gates, via)
+        real, out = real_remap(items, nn, 0, gates, via, rng.choice(MAPPING_FORMS), rng.choice(CIRCUIT_FORMS))
         if via == "qiskit":
             gates = gates + [MARKER]  # the helper must apply the user transpiler on logical qubits, then remap
         n_eval += 1
@@ -842,6 +1054,544 @@ def oracle_search(ctx: Ctx, budget_s: float):
     ctx.extra["oracle_validation"] = {"evaluations": n_eval, "worst_dense_defect_ok": worst}
     ctx.evaluations += n_eval
     ctx.search_budget_s += budget_s
+
+
+# ---------------------------------------------------------------------------
+# histories: the same mapping / transpiler / result objects used again and again
+# ---------------------------------------------------------------------------
+def k_history(ctx: Ctx):
+    """A pool of live BackendQubitMapping objects (each with ONE transpiler, ONE mapped result and ONE mapped job
+    that are reused), driven by an interleaved sequence of remap / unmap calls; every answer must be the model's
+    answer for that call alone (no state carried between calls, no cache keyed on less than the whole input)."""
+    import quri_parts.backend.qubit_mapping as qm
+    from quri_parts.circuit.transpile import QubitRemappingTranspiler
+
+    from oracle import c18_remap as orc
+
+    rng = ctx.rng
+    trials = []
+    for _ in range(ctx.n(60, 1500)):
+        n = rng.randint(1, 5)
+        pool = []
+        base_items, _ = rand_mapping(rng, n, kind=rng.choice(VALID_KINDS))
+        for j in range(rng.randint(1, 3)):
+            r = rng.random()
+            if j == 0 or r < 0.3:
+                items, kind = (base_items, "base") if j == 0 else rand_mapping(rng, n)
+            elif r < 0.65:  # same keys and values, another pairing (a cache keyed on keys / on sorted values)
+                vals = [v for _, v in base_items]
+                rng.shuffle(vals)
+                items, kind = list(zip([k for k, _ in base_items], vals)), "repaired"
+            else:  # same pairs, another insertion order
+                items = list(base_items)
+                rng.shuffle(items)
+                kind = "reordered"
+            pool.append((items, kind))
+        ops, circs, cnts = [], [], []
+        for _ in range(rng.randint(4, 10)):
+            i = rng.randrange(len(pool))
+            items = pool[i][0]
+            labels = sorted(k for k, _ in items) or [0]
+            if rng.random() < 0.5:
+                if circs and rng.random() < 0.35:
+                    c = rng.choice(circs)  # the same circuit again, possibly through another mapping
+                else:
+                    cb = rng.randint(1, 2) if rng.random() < 0.1 else 0
+                    lab = labels if rng.random() < 0.85 else labels + [max(labels) + 1]
+                    gates = [rand_gate(rng, lab, cb > 0, cb) for _ in range(rng.randint(0, 5))]
+                    c = (max(lab) + 1, cb, gates)
+                    circs.append(c)
+                ops.append(("remap", i, c, rng.choice(["own", "cached"]), rng.choice(CIRCUIT_FORMS)))
+            else:
+                if cnts and rng.random() < 0.35:
+                    cs = rng.choice(cnts)
+                else:
+                    width = max([v for _, v in items] + [1]) + 1
+                    cs = rand_counts(rng, width, rng.randint(0, 6))
+                    cnts.append(cs)
+                ops.append(("unmap", i, cs, rng.choice(["mapping", "result", "job"]), None))
+        trials.append((pool, ops))
+    reqs = []
+    for pool, ops in trials:
+        for op, i, payload, _, _ in ops:
+            if op == "remap":
+                n, cb, gates = payload
+                reqs.append(f"c18remap {enc_map(pool[i][0])} | {n} {cb} | " + ";".join(enc_gate_spec(g) for g in gates))
+            else:
+                reqs.append(f"c18unmap {enc_map(pool[i][0])} | {enc_counts(payload)}")
+    resp = iter(ctx.driver(reqs, entry=ENTRY))
+    for pool, ops in trials:
+        live = []
+        for items, _ in pool:
+            o = types.SimpleNamespace(items=items, bm=None, tr=None, tr_err=None, raw=types.SimpleNamespace(counts={}),
+                                      job_counts={})
+            try:
+                o.bm = qm.BackendQubitMapping(mapping_form(items, rng.choice(MAPPING_FORMS)))
+                o.res = qm.QubitMappedSamplingResult(o.raw, o.bm)
+                o.job = qm.QubitMappedSamplingJob(StubJob(None), o.bm)
+            except Exception as e:  # noqa: BLE001
+                o.tr_err = f"err init {type(e).__name__}"
+            try:
+                o.tr = QubitRemappingTranspiler(dict(items))
+            except Exception as e:  # noqa: BLE001
+                o.tr_err = f"err init {type(e).__name__}"
+            live.append(o)
+        trace = []
+        dead = False
+        for step, (op, i, payload, how, cform) in enumerate(ops):
+            model = next(resp)
+            if dead:
+                continue  # one report per history; the responses of its remaining calls are still consumed
+            if model == "bad-request":
+                raise InfraError("driver rejected a history request")
+            o = live[i]
+            if op == "remap":
+                n, cb, gates = payload
+                try:
+                    tr = o.tr if how == "own" else o.bm.circuit_transpiler
+                    if tr is None:
+                        real = o.tr_err
+                    else:
+                        try:
+                            real = enc_real_circuit(tr(circuit_form(real_circuit(n, cb, gates), cform)))
+                        except Exception as e:  # noqa: BLE001
+                            real = f"err call {type(e).__name__}"
+                except Exception as e:  # noqa: BLE001
+                    real = f"err init {type(e).__name__}"
+                want = strip_detail(model)
+            else:
+                counts = dict(payload)
+                try:
+                    if how == "mapping":
+                        out = o.bm.unmap_sampling_counts(counts)
+                    elif how == "result":
+                        o.raw.counts = counts  # the wrapped result object reports new counts; the wrapper is the old one
+                        out = o.res.counts
+                    else:
+                        o.job.sampling_job._counts = counts
+                        out = o.job.result().counts
+                    real = "counts=" + enc_counts(list(out.items()))
+                except Exception as e:  # noqa: BLE001
+                    real = f"err {type(e).__name__}"
+                want = model.split(" | ", 1)[1] if " | " in model else model
+            trace.append({"op": op, "mapping_index": i, "how": how})
+            hist_inp = {"live_mappings": [it for it, _ in pool], "calls_before_on_the_same_objects": list(trace[:-1][-8:]),
+                        "this_call": {"op": op, "mapping": o.items, "through": how, "payload": str(payload)[:400]}}
+            m_o = dict(o.items)
+            if op == "unmap" and m_o and len(set(m_o.values())) == len(m_o):
+                want_c = orc.expected_unmapped_counts(m_o, dict(payload))
+                got_c = None if real.startswith("err") else {int(a): int(b) for a, b in (kv.split(":") for kv in real[7:].split(",") if kv)}
+                if got_c != want_c:
+                    ctx.witness("history-unmap-counts", "a mapping / mapped result / mapped job object that was used before un-maps "
+                                "these counts differently from the logical distribution", hist_inp,
+                                {"got": real[:300], "want": sorted(want_c.items())[:20]})
+            if op == "remap" and m_o:
+                n_, cb_, gates_ = payload
+                exp = orc.expected_relabelling(m_o, [(g["t"], g["c"]) for g in gates_])
+                if exp is None and real.startswith("ok"):
+                    ctx.witness("history-remap", "a transpiler object that was used before accepts a circuit its mapping does not cover",
+                                hist_inp, {"got": real[:300]})
+                elif exp is not None and cb_ == 0:
+                    want_r = f"ok {exp[0]} 0 | " + ";".join(
+                        f"{g['name']}/{','.join(map(str, t))}/{','.join(map(str, c))}//{payload_of(g['params'], g['pauli'], g['um'])}"
+                        for g, (t, c) in zip(gates_, exp[1]))
+                    if real != want_r:
+                        ctx.witness("history-remap", "a transpiler object that was used before does not relabel this circuit by its mapping",
+                                    hist_inp, {"got": real[:300], "want": want_r[:300]})
+            ctx.traces += 1
+            ctx.count("history.op", f"{op}/{how}")
+            ctx.case(("history", tuple(map(str, pool)), step, str(payload)[:200]), nontrivial=True)
+            if real != want:
+                ctx.disagree("history:" + op, {"kind": "history", "pool": [it for it, _ in pool], "step": step,
+                                                "calls_so_far": trace[-8:], "payload": str(payload)[:300]}, real[:300], want[:300])
+                dead = True
+        ctx.count("history.pool", "+".join(k for _, k in pool))
+
+
+# ---------------------------------------------------------------------------
+# the alternative public entry points, end to end, against the oracle
+# ---------------------------------------------------------------------------
+def transpiler_form(rng):
+    """(argument handed to the back end, whether the marker X(0) is applied, label)"""
+    from quri_parts.circuit.transpile import SequentialTranspiler
+
+    f = rng.choice(["marker", "marker", "sequential", "none", "omitted"])
+    if f == "marker":
+        return {"circuit_transpiler": marker_transpiler()}, True, f
+    if f == "sequential":
+        return {"circuit_transpiler": SequentialTranspiler([SequentialTranspiler([]), marker_transpiler()])}, True, f
+    if f == "none":
+        return {"circuit_transpiler": None}, False, f
+    return {}, False, f
+
+
+def entry_braket(ctx: Ctx, count: int):
+    """BraketSamplingBackend on a scripted device that EXECUTES the Braket circuit it is handed (classical
+    reversible circuits on |0…0>, stray 1s on backend qubits outside the mapping): plain Device / AwsDevice with a
+    shotsRange, with and without a mapping, every circuit_transpiler argument form, shot batches incl. round-up and
+    refusal, and a Device.run that fails part-way."""
+    from quri_parts.braket.backend.sampling import BraketSamplingBackend
+
+    from oracle import c18_remap as orc
+
+    rng = ctx.rng
+    # every branch of the batch rule once per run, whatever the seed: (device min, device max, shots, round-up)
+    forced = [(3, 5, 2, False), (3, 5, 2, True), (3, 4, 9, False), (3, 4, 9, True), (2, 4, 10, None), (0, 0, 7, False), (1, 3, 9, True)]
+    for _ in range(count):
+        force = forced.pop() if forced else None
+        n = rng.randint(1, 4)
+        with_map = rng.random() < 0.8
+        items, kind = rand_mapping(rng, n, kind=rng.choice(VALID_KINDS))
+        items = list(zip(range(n), [v for _, v in items][:n]))
+        if len(items) < n:
+            continue
+        rng.shuffle(items)
+        m = dict(items) if with_map else {k: k for k in range(n)}
+        width = max(m.values()) + 1
+        free = [b for b in range(width + 2) if b not in set(m.values())]
+        gates = [classical_gate(rng, list(range(n))) for _ in range(rng.randint(0, 6))]
+        targ, marked, tform = transpiler_form(rng)
+        lo, hi, dev_kind = 1, None, "plain"
+        if force or rng.random() < 0.6:
+            dev_kind = "aws"
+            lo_raw = force[0] if force else rng.choice([0, 1, 1, 2, 3])
+            hi_raw = force[1] if force else rng.choice([0, 2, 3, 4, 5])
+            hi_raw = hi_raw if hi_raw == 0 or hi_raw >= max(lo_raw, 1) else max(lo_raw, 1)
+            ops = [o for o in ALL_OPS if o not in ("cz", "i") or rng.random() < 0.5]
+            dev = aws_stub((lo_raw, hi_raw), ops)
+            lo, hi = (lo_raw if lo_raw > 0 else 1), (hi_raw if hi_raw > 0 else None)
+        else:
+            dev = StubDevice()
+        roundup = rng.choice([True, True, False, None])  # None = argument omitted (documented default True)
+        shots = rng.choices([rng.randint(1, 11), rng.randint(1, 4), 0], [10, 5, 1])[0]
+        if force:
+            shots, roundup = force[2], force[3]
+        want_dist = orc.expected_shot_batches(shots, lo, hi, True if roundup is None else roundup) if shots >= 1 else None
+        fail_at = rng.randrange(len(want_dist)) if want_dist and rng.random() < (0.3 if len(want_dist) > 1 else 0.06) and not force else None
+        x_on = orc.classical_run(real_circuit(n, 0, gates + ([MARKER] if marked else [])).gates, set())
+        rows_seen = []
+
+        def script(used, s, dev=dev):
+            if fail_at is not None and len(dev.calls) == fail_at:
+                raise DeviceDown("scripted failure")
+            on = orc.braket_classical_run(dev.last_circuit)
+            mq = sorted(set(m.values()) | set(rng.sample(free, rng.randint(0, len(free)))))
+            rng.shuffle(mq)
+            rows = [[1 if (b in on or (b in free and rng.random() < 0.25)) else 0 for b in mq] for _ in range(s)]
+            rows_seen.extend((tuple(mq), tuple(r)) for r in rows)
+            return mq, rows
+
+        dev.script = [script] * 64
+        dev.cancel_raises = rng.random() < 0.5
+        kw = dict(targ)
+        if with_map:
+            kw["qubit_mapping"] = mapping_form(items, rng.choice(MAPPING_FORMS))
+        elif rng.random() < 0.5:
+            kw["qubit_mapping"] = None
+        if roundup is not None:
+            kw["enable_shots_roundup"] = roundup
+        run_kwargs = {"poll_timeout_seconds": 7} if rng.random() < 0.2 else None
+        if run_kwargs:
+            kw["run_kwargs"] = run_kwargs
+        inp = {**describe(items if with_map else [], n, 0, gates), "qubit_mapping_given": with_map, "shots": shots,
+               "device": dev_kind, "shotsRange": getattr(getattr(dev, "_p", None), "service", None) and list(dev._p.service.shotsRange),
+               "circuit_transpiler": tform, "enable_shots_roundup": roundup, "run_fails_at_call": fail_at}
+        try:
+            be = BraketSamplingBackend(dev, **kw)
+            job = be.sample(circuit_form(real_circuit(n, 0, gates), rng.choice(CIRCUIT_FORMS)), shots)
+            got = dict(job.result().counts)
+            if rng.random() < 0.3:  # the job / result objects asked twice
+                again = dict(job.result().counts)
+                if again != got:
+                    ctx.witness("braket-backend-counts", "job.result().counts differs between two reads of the same job", inp,
+                                {"first": sorted(got.items()), "second": sorted(again.items())})
+        except Exception as e:  # noqa: BLE001
+            got = "raised " + type(e).__name__
+        ctx.evaluations += 1
+        ran = [c[1] for c in dev.calls]
+        ctx.count("entry.braket", f"{dev_kind}/{'mapped' if with_map else 'unmapped'}/{tform}")
+        ctx.count("entry.braket.batches", str(len(ran)) if not isinstance(got, str) else got)
+        det = {"got": got if isinstance(got, str) else sorted(got.items()), "device_shots": ran}
+        if shots < 1:
+            # documented: "n_shots should be a positive integer" — only conservation is demanded if it does run
+            if not isinstance(got, str) and sum(got.values()) != sum(ran):
+                ctx.witness("braket-backend-counts", "counts total differs from the shots the device ran", inp, det)
+            continue
+        if want_dist is None:
+            if not isinstance(got, str):
+                ctx.witness("braket-shot-batches", "fewer shots than the device minimum with enable_shots_roundup=False must be "
+                            "refused (documented ValueError); the back end ran the device instead", inp, det)
+            continue
+        if fail_at is not None:
+            if not isinstance(got, str):
+                ctx.witness("braket-run-failure", "Device.run failed for one of the batches but sample() returned a job whose counts "
+                            "cannot contain every requested shot", inp, det)
+            else:
+                ctx.count("entry.braket.cancelled", f"{sum(t.cancelled for t in dev.tasks)}/{len(dev.tasks)}")
+            continue
+        if isinstance(got, str):
+            ctx.witness("braket-backend-counts", f"a valid request was answered with {got}", inp, det)
+            continue
+        if ran != want_dist or not orc.shot_batches_admissible(ran, shots, lo, hi, True if roundup is None else roundup):
+            ctx.witness("braket-shot-batches", f"the device was run with shot batches {ran}, documented behaviour gives {want_dist}", inp, det)
+            continue
+        if run_kwargs and any(k != run_kwargs for k in dev.run_kwargs):
+            ctx.count("entry.braket.run_kwargs", "not-forwarded")
+        if with_map:
+            want = {orc.from_ones(x_on): sum(want_dist)}
+        else:  # no mapping: the backend outcomes as they are, stray bits included
+            want = {}
+            for mq, row in rows_seen:
+                y = orc.from_ones(q for q, b in zip(mq, row) if b)
+                want[y] = want.get(y, 0) + 1
+        if got != want:
+            f64 = any(c[2] and max(c[2]) == 63 for c in dev.calls)
+            ctx.witness(FINDING_F64 if f64 else "braket-backend-counts",
+                        "BraketSamplingResult.counts computes the key in float64 when the largest measured qubit label is 63" if f64 else
+                        "BraketSamplingBackend.sample(c, shots).result().counts differs from the counts of the logical circuit",
+                        {**inp, "device_calls": [(c[2], c[3]) for c in dev.calls]}, {**det, "want": sorted(want.items())})
+
+
+def entry_braket_guards(ctx: Ctx):
+    """the two documented refusals of BraketSamplingResult, reached through the mapped job: a task result that is
+    not a GateModelQuantumTaskResult, and one without measurements — no counts may come back"""
+    import numpy as np
+    from braket.tasks import GateModelQuantumTaskResult
+
+    from quri_parts.braket.backend.sampling import BraketSamplingBackend
+
+    for label, res in (("foreign-result", object()),
+                       ("no-measurements", GateModelQuantumTaskResult(task_metadata=None, additional_metadata=None,
+                                                                      measurements=None, measured_qubits=[0, 1]))):
+        for m in ({0: 1, 1: 0}, None):
+            dev = StubDevice()
+            dev.script = [lambda used, s, res=res: res]
+            try:
+                got = dict(BraketSamplingBackend(dev, qubit_mapping=m).sample(real_circuit(2, 0, [MARKER]), 3).result().counts)
+            except Exception as e:  # noqa: BLE001
+                got = "raised " + type(e).__name__
+            ctx.evaluations += 1
+            ctx.count("entry.braket.guard", f"{label}:{got if isinstance(got, str) else 'counts'}")
+            if not isinstance(got, str) and sum(got.values()) != 3:
+                ctx.witness("braket-backend-counts", f"{label}: counts came back although the device delivered no measurement",
+                            {"mapping": m, "result": label}, {"got": sorted(got.items())})
+    del np
+
+
+_QISKIT_SIM = None
+
+
+def qiskit_sim(max_shots_form, max_shots):
+    """qiskit's own BasicSimulator (a BackendV2) recording the shots of every run; how the device advertises its
+    max_shots is the argument form get_backend_min_max_shot has to read"""
+    global _QISKIT_SIM
+    if _QISKIT_SIM is None:
+        from qiskit.providers.basic_provider import BasicSimulator
+
+        class Sim(BasicSimulator):
+            def __init__(self, form, max_shots):
+                super().__init__()
+                self.shots_seen = []
+                self.fail_at = None
+                if form == "attr":
+                    self.max_shots = max_shots
+                elif form == "configuration":
+                    self.configuration = lambda: types.SimpleNamespace(max_shots=max_shots)
+                elif form == "configuration-without":
+                    self.configuration = lambda: types.SimpleNamespace()
+
+            def run(self, run_input, **kw):
+                if self.fail_at is not None and len(self.shots_seen) == self.fail_at:
+                    raise DeviceDown("scripted failure")
+                self.shots_seen.append(kw.get("shots"))
+                return super().run(run_input, **kw)
+
+        _QISKIT_SIM = Sim
+    return _QISKIT_SIM(max_shots_form, max_shots)
+
+
+def entry_qiskit(ctx: Ctx, count: int):
+    """QiskitSamplingBackend (the in-tree caller of utils.py) on qiskit's BasicSimulator: a classical reversible
+    circuit, a user transpiler on logical qubit 0, the mapping, a converter that additionally sets stray backend
+    qubits to 1, shots split by the device's max_shots; the counts must be those of the logical circuit."""
+    try:
+        sampling = importlib.import_module(qiskit_utils().__name__.rsplit(".", 1)[0] + ".sampling")
+        from quri_parts.qiskit.circuit import convert_circuit
+        import qiskit
+    except Exception as e:  # noqa: BLE001
+        ctx.disagree("entry:qiskit-backend-import", {"kind": "entry"}, f"import failed: {type(e).__name__}: {e}"[:300], "importable")
+        return
+    from oracle import c18_remap as orc
+
+    rng = ctx.rng
+    default_max = getattr(qiskit_utils(), "DEFAULT_MAX_SHOT", 10**6)
+    for _ in range(count):
+        n = rng.randint(1, 4)
+        with_map = rng.random() < 0.85
+        items, kind = rand_mapping(rng, n, kind=rng.choice(["inj", "inj", "inj-wide", "identity", "perm", "shift"]))
+        vals = [v for _, v in items][:n]
+        if len(vals) < n or max(vals) > 9:
+            vals = rng.sample(range(10), n)
+        items = list(zip(range(n), vals))
+        rng.shuffle(items)
+        m = dict(items) if with_map else {k: k for k in range(n)}
+        width = max(m.values()) + 1
+        free = [b for b in range(width + 2) if b not in set(m.values())]
+        stray = sorted(b for b in free if rng.random() < 0.3) if with_map else []
+        gates = [classical_gate(rng, list(range(n))) for _ in range(rng.randint(0, 6))]
+        tform = rng.choice(["marker", "marker", "none", "omitted"])
+        marked = tform == "marker"
+        form = rng.choice(["attr", "attr", "configuration", "configuration-without", "neither"])
+        raw_max = rng.choice([2, 3, 4, 2, 3, 0, -1]) if form in ("attr", "configuration") else None
+        hi = raw_max if raw_max is not None and raw_max > 0 else default_max
+        shots = rng.choices([rng.randint(1, 12), 1, 0], [12, 2, 1])[0]
+        roundup = rng.choice([True, False, None])
+        want_dist = orc.expected_shot_batches(shots, 1, hi, True if roundup is None else roundup) if shots >= 1 else None
+        fail_at = rng.randrange(len(want_dist)) if want_dist and rng.random() < (0.25 if len(want_dist) > 1 else 0.05) else None
+
+        def conv(c, tr=None, stray=stray):
+            qc = convert_circuit(c, tr)
+            if not stray:
+                return qc
+            big = qiskit.QuantumCircuit(max(qc.num_qubits, max(stray) + 1))
+            big.compose(qc, qubits=range(qc.num_qubits), inplace=True)
+            for b in stray:
+                big.x(b)
+            return big
+
+        kw = {}
+        if marked:
+            kw["circuit_transpiler"] = marker_transpiler()
+        elif tform == "none":
+            kw["circuit_transpiler"] = None
+        if with_map:
+            kw["qubit_mapping"] = mapping_form(items, rng.choice(MAPPING_FORMS))
+        elif rng.random() < 0.5:
+            kw["qubit_mapping"] = None  # ({} is outside the property's domain)
+        if roundup is not None:
+            kw["enable_shots_roundup"] = roundup
+        if stray:
+            kw["circuit_converter"] = conv
+        inp = {**describe(items if with_map else [], n, 0, gates), "qubit_mapping_given": with_map, "shots": shots,
+               "device_max_shots": {"form": form, "value": raw_max}, "circuit_transpiler": tform, "enable_shots_roundup": roundup,
+               "stray_backend_qubits_set": stray, "run_fails_at_call": fail_at}
+        sim = None
+        try:
+            with warnings.catch_warnings():
+                warnings.simplefilter("ignore")
+                sim = qiskit_sim(form, raw_max)
+                sim.fail_at = fail_at
+                be = sampling.QiskitSamplingBackend(sim, **kw)
+                job = be.sample(circuit_form(real_circuit(n, 0, gates), rng.choice(CIRCUIT_FORMS)), shots)
+                got = dict(job.result().counts)
+        except Exception as e:  # noqa: BLE001
+            got = "raised " + type(e).__name__
+        ran = list(sim.shots_seen) if sim is not None else []
+        ctx.evaluations += 1
+        ctx.count("entry.qiskit", f"{'mapped' if with_map else 'unmapped'}/{tform}/{form}")
+        ctx.count("entry.qiskit.batches", str(len(ran)) if not isinstance(got, str) else got)
+        det = {"got": got if isinstance(got, str) else sorted(got.items()), "device_shots": ran}
+        if shots < 1:
+            if not isinstance(got, str) and sum(got.values()) != sum(ran):
+                ctx.witness("qiskit-backend-counts", "counts total differs from the shots the device ran", inp, det)
+            continue
+        if fail_at is not None:
+            if not isinstance(got, str):
+                ctx.witness("qiskit-run-failure", "Backend.run failed for one of the batches but sample() returned a job whose counts "
+                            "cannot contain every requested shot", inp, det)
+            continue
+        if isinstance(got, str):
+            ctx.witness("qiskit-backend-counts", f"a valid request was answered with {got}", inp, det)
+            continue
+        if ran != want_dist:
+            ctx.witness("qiskit-shot-batches", f"the device was run with shot batches {ran}, documented behaviour gives {want_dist}", inp, det)
+            continue
+        x_on = orc.classical_run(real_circuit(n, 0, gates + ([MARKER] if marked else [])).gates, set())
+        want = {orc.from_ones(x_on if with_map else x_on | set(stray)): sum(want_dist)}
+        if got != want:
+            ctx.witness("qiskit-backend-counts", "QiskitSamplingBackend.sample(c, shots).result().counts differs from the counts of "
+                        "the logical circuit", inp, {**det, "want": sorted(want.items())})
+
+
+def entry_qiskit_shots(ctx: Ctx):
+    """distribute_backend_shots / get_backend_min_max_shot called directly (device minima above 1 are not reachable
+    through a qiskit backend object), against the documented behaviour"""
+    from oracle import c18_remap as orc
+
+    u = qiskit_utils()
+    rng = ctx.rng
+    dist = getattr(u, "distribute_backend_shots", None)
+    if dist is None:
+        ctx.disagree("entry:distribute_backend_shots", {"kind": "entry"}, "function missing", "present")
+    else:
+        grid = [(n, lo, hi, ru) for n in range(1, ctx.n(14, 40)) for lo in (1, 2, 3, 5) for hi in (None, 1, 2, 3, 4, 5, 7)
+                if hi is None or lo <= hi for ru in (True, False, None, "omitted")]
+        grid += [(rng.randint(1, 10**7), rng.choice([1, 10, 100]), rng.choice([None, 100, 8192, 10**6]), rng.choice([True, False]))
+                 for _ in range(ctx.n(60, 2000))]
+        for n, lo, hi, ru in grid:
+            pos = rng.random() < 0.5
+            try:
+                if ru == "omitted":
+                    got = list(dist(n, lo, hi) if pos else dist(n_shots=n, min_shots=lo, max_shots=hi))
+                else:
+                    got = list(dist(n, lo, hi, ru) if pos else dist(n_shots=n, min_shots=lo, max_shots=hi, enable_shots_roundup=ru))
+            except Exception as e:  # noqa: BLE001
+                got = "raised " + type(e).__name__
+            eff = True if ru == "omitted" else bool(ru)
+            want = orc.expected_shot_batches(n, lo, hi, eff)
+            ctx.evaluations += 1
+            ctx.count("entry.qiskit.distribute", "refused" if want is None else str(min(len(want), 4)))
+            inp = {"n_shots": n, "min_shots": lo, "max_shots": hi, "enable_shots_roundup": ru}
+            if want is None:
+                if got != "raised ValueError":
+                    ctx.witness("qiskit-shot-batches", "fewer shots than the device minimum without round-up must be refused with "
+                                "ValueError", inp, {"got": got})
+            elif got != want or not orc.shot_batches_admissible(got, n, lo, hi, eff):
+                ctx.witness("qiskit-shot-batches", "distribute_backend_shots differs from the documented batches", inp,
+                            {"got": got, "want": want})
+    mm = getattr(u, "get_backend_min_max_shot", None)
+    if mm is None:
+        ctx.disagree("entry:get_backend_min_max_shot", {"kind": "entry"}, "function missing", "present")
+        return
+    import qiskit.providers.backend as pb
+
+    default_max = getattr(u, "DEFAULT_MAX_SHOT", 10**6)
+
+    class V1(pb.BackendV1):  # the stand-in (or real) BackendV1: only `configuration()` exists on that generation
+        def __init__(self, cfg):
+            self._cfg = cfg
+
+        def configuration(self):
+            return self._cfg
+
+    cases = []
+    for form in ("attr", "configuration", "configuration-without", "neither"):
+        for v in ((3, 8192, 1, 0, -5) if form in ("attr", "configuration") else (None,)):
+            cases.append((f"BackendV2/{form}/{v}", lambda form=form, v=v: qiskit_sim(form, v), v))
+    for v in (5, 0, None):
+        cases.append((f"BackendV1/configuration/{v}",
+                      lambda v=v: V1(types.SimpleNamespace(max_shots=v) if v is not None else types.SimpleNamespace()), v))
+    cases.append(("not-a-backend", lambda: object(), "refuse"))
+    for label, mk, v in cases:
+        try:
+            with warnings.catch_warnings():
+                warnings.simplefilter("ignore")
+                got = tuple(mm(mk()))
+        except Exception as e:  # noqa: BLE001
+            got = "raised " + type(e).__name__
+        want = "raised BackendError" if v == "refuse" else (1, v if isinstance(v, int) and v > 0 else default_max)
+        ctx.evaluations += 1
+        ctx.count("entry.qiskit.min_max", label.split("/")[0])
+        if got != want:
+            ctx.witness("qiskit-min-max-shot", "get_backend_min_max_shot differs from the documented (1, device max_shots or the default)",
+                        {"backend": label}, {"got": got, "want": want})
+
+
+def entry_points(ctx: Ctx, scale: int = 1):
+    entry_braket(ctx, ctx.n(160, 4000) * scale)
+    entry_braket_guards(ctx)
+    entry_qiskit(ctx, ctx.n(100, 1500) * scale)
+    entry_qiskit_shots(ctx)
 
 
 def regression_measurement(ctx: Ctx):
@@ -922,8 +1672,11 @@ def run(ctx: Ctx, replay=None) -> int:
                 "property itself on the real code against oracle/c18_remap.py (counted in evaluations only)")
     ctx.trusted = TRUSTED
     ctx.assumptions = [
-        "qubit indices, outcome integers are naturals; counts are Python ints (floats are not exercised)",
-        "a Mapping passed as qubit_mapping is a dict (distinct keys, insertion order)",
+        "qubit indices, outcome integers are naturals; counts are Python ints or floats that are multiples of 1/4 below "
+        "2^22 (every sum exact; other floats are not exercised)",
+        "a Mapping passed as qubit_mapping is a dict, OrderedDict, MappingProxyType or a plain collections.abc.Mapping "
+        "(distinct keys, iteration = insertion order); it is not mutated after construction",
+        "device shot limits satisfy min_shots <= max_shots",
         "the empty mapping is outside the property's domain (the code raises ValueError from max(()))",
     ]
     if replay:
@@ -949,8 +1702,11 @@ def run(ctx: Ctx, replay=None) -> int:
         k_bits(ctx)
         k_qiskit(ctx)
         k_braket(ctx)
+        k_history(ctx)
     with ctx.timed("oracle_validation"):
         broken = bool(ctx.failed_obligations or ctx.disagreements)
         budget = (8 if ctx.quick() else 150) * (6 if broken else 1)
         oracle_search(ctx, budget)
+    with ctx.timed("entry_points"):
+        entry_points(ctx, 4 if broken else 1)
     return ctx.finish()
